@@ -29,6 +29,7 @@ type LoopSpec struct {
 }
 
 type ModItem struct {
+	Fresh bool // heap named, but only objects allocated during the call are written
 	Src  string
 	Expr Expr   // object-level: x.f / x.* / x[*]
 	Heap string // heap-level: exact heap name or prefix with trailing '*'
@@ -73,6 +74,7 @@ type SpecFn struct {
 }
 
 type Lemma struct {
+	Induction string
 	Name  string
 	Pkg   string
 	Props []string
@@ -317,6 +319,8 @@ func (cs *ContractSet) LoadFile(path, pkgPath string) {
 					cur.Modifies = append(cur.Modifies, ModItem{Src: it, All: true})
 				case strings.HasPrefix(it, "heap "):
 					cur.Modifies = append(cur.Modifies, ModItem{Src: it, Heap: strings.TrimSpace(it[5:])})
+				case strings.HasPrefix(it, "fresh "):
+					cur.Modifies = append(cur.Modifies, ModItem{Src: it, Heap: strings.TrimSpace(it[6:]), Fresh: true})
 				default:
 					src := strings.Replace(strings.Replace(it, ".*", ".ALLFIELDS", 1), "[*]", ".ALLELEMS", 1)
 					e, err := parseExpr(src)
@@ -405,17 +409,31 @@ func (cs *ContractSet) LoadFile(path, pkgPath string) {
 				continue
 			}
 			name := strings.TrimSpace(r2[:i])
+			if j := strings.Index(name, "["); j > 0 {
+				if p3, _ := splitProps(name[j:] + " "); p3 != nil {
+					props = p3
+					name = strings.TrimSpace(name[:j])
+				}
+			}
 			src := strings.TrimSpace(r2[i+1:])
 			props2, src := splitProps(src)
 			if props == nil {
 				props = props2
+			}
+			ind := ""
+			if strings.HasPrefix(src, "induction ") {
+				j := strings.Index(src, ":")
+				if j > 0 && !strings.HasPrefix(src[j:], "::") {
+					ind = strings.TrimSpace(src[len("induction "):j])
+					src = strings.TrimSpace(src[j+1:])
+				}
 			}
 			e, err := parseExpr(src)
 			if err != nil {
 				cs.errf(path, ll.line, "%v", err)
 				continue
 			}
-			cs.Lemmas = append(cs.Lemmas, &Lemma{Name: name, Pkg: pkgPath, Props: props, Expr: e, Src: src, Axiom: word == "axiom", File: path, Line: ll.line})
+			cs.Lemmas = append(cs.Lemmas, &Lemma{Induction: ind, Name: name, Pkg: pkgPath, Props: props, Expr: e, Src: src, Axiom: word == "axiom", File: path, Line: ll.line})
 			cur = nil
 		case "ghost":
 			// ghost Owner.name type
@@ -451,7 +469,11 @@ func (cs *ContractSet) LoadFile(path, pkgPath string) {
 
 func qualify(pkgPath, key string) string {
 	// iface keys: Type.Method, optionally already qualified by a package path containing '/'
-	if strings.Contains(key, "/") {
+	if strings.Contains(key, "/") || strings.HasPrefix(key, "error.") {
+		return key
+	}
+	// pkgname.Type.Method for well-known packages
+	if strings.Count(key, ".") == 2 {
 		return key
 	}
 	return pkgPath + "." + key
